@@ -1,6 +1,6 @@
 CFG = dict(
     theorems=["C10.each_once_counting", "C10.session_bounds", "C10.no_early_delivery", "C10.gap_splits", "C10.open_sessions_apart", "C10.joins_exactly_the_touched",
-              "C10.inorder_outcome_is_reference", "C10.reference_ignores_schedule", "C10.schedule_independent", "C10.delivered_is_reference_after_flush"],
+              "C10.inorder_outcome_is_reference", "C10.reference_ignores_schedule", "C10.schedule_independent", "C10.delivered_is_reference_after_flush", "C10.manual_flush"],
     unproved=[],
     rule="event-time session op sequences over 1-3 keys: dense bursts, gaps timeout-1 / timeout / timeout+1 / 3*timeout+, in-order per case with prob 2/3 else out of order within and beyond the tolerance (incl. events that bridge two open sessions), "
          "far-future and timestamp-less rows, deliveries at arbitrary positions incl. Adds in the unlock gap; SQL-level cases through the public API; distinct = distinct (cfg, op list)",
